@@ -32,7 +32,7 @@ def obligations(tier):
     obs.append(S.SOb('C16.beam[G5r,n=2,tags=2,prune=2,beta=0.05]', S.G5(False), 2, pruning=2, penalty='0', use_beta=True, beta=0.05, lo=-100))
     obs.append(S.SOb('C16.beam[G3c,n=2,tags=2,prune=1,filter=off]', S.G3(True), 2, pruning=1, penalty='sym'))
     if not q:
-        obs.append(S.SOb('C16.beam[G3c,n=2,tags=2,prune=2,beta=0.05]', S.G3(True), 2, pruning=2, penalty='sym', use_beta=True, beta=0.05, lo=-100, max_seconds=900))
+        obs.append(S.SOb('C16.beam[G3c,n=2,tags=2,prune=2,beta=0.05]', S.G3(True), 2, pruning=2, penalty='sym', use_beta=True, beta=0.05, lo=-100, max_seconds=450))
         obs.append(S.SOb('C16.beam[G6,n=1,tags=4,prune=3,beta=1e-5,flattened=[2,3]]', S.G6(), 1, pruning=3, penalty='sym', use_beta=True, beta=1e-5, lo=-100, flat=[(0, 2), (0, 3)]))
     return obs
 
